@@ -157,3 +157,21 @@ def t12_view_in(mem, off, end, a, b):
     if s + n + (b - a) > end:
         return NO_NDEF
     return mem[s:a] + mem[b:b + n - (a - s)]
+
+
+def t3_apply(mem, data, blocks):
+    """memory of a Type 3 Tag after the blocks of one Write Without Encryption command were stored in list order
+    (16 octets each, a later element of the list wins)"""
+    i = 0
+    for b in blocks:
+        mem = mem[0:16 * b] + data[16 * i:16 * i + 16] + mem[16 * b + 16:]
+        i = i + 1
+    return mem
+
+
+def t3_gather(mem, blocks):
+    """what one Read Without Encryption command returns: the listed blocks in list order"""
+    out = b''
+    for b in blocks:
+        out = out + mem[16 * b:16 * b + 16]
+    return out
